@@ -47,6 +47,10 @@ func VerifC17_sequential() {
 	for i := 0; i < n; i++ {
 		name := vfString(vfName("name", i), 2, vfASCII)
 		d := vfDeco(vfByte(vfName("glyph", i), vfTXT))
+		if vfChoice(vfName("empty", i), 2) == 1 {
+			d = EmptyDecoration // a registration like any other: the name is taken (and listed)
+			vfTag("empty-decoration-registered")
+		}
 		RegisterDecorationName(name, d)
 		names = append(names, name)
 		decos = append(decos, d)
@@ -89,8 +93,21 @@ func VerifC17_concurrent() {
 	var got Decoration
 	var list []string
 	var got2 Decoration
+	// a thread that has registered a name finds it in a listing it asks for afterwards
+	own1ok := true
+	contains := func(l []string, n string) bool {
+		found := false
+		for _, x := range l {
+			found = vfOr(found, x == n)
+		}
+		return found
+	}
 	bodies := []func(){
-		func() { RegisterDecorationName(vfFresh(n1), d1) },
+		func() {
+			nm := vfFresh(n1)
+			RegisterDecorationName(nm, d1)
+			own1ok = vfAnd(own1ok, contains(RegisteredDecorationNames(), nm))
+		},
 		func() { got = Named(n3) },
 		func() { list = RegisteredDecorationNames() },
 		func() { RegisterDecorationName(vfFresh(n2), d2) },
@@ -111,6 +128,7 @@ func VerifC17_concurrent() {
 		ok = ok || got == d2
 	}
 	vfAssert(ok, "lookup-returns-a-registered-decoration-or-empty")
+	vfAssert(own1ok, "own-registration-is-in-own-later-listing")
 	vfCheckListing(list, nil)
 	// once registrations have finished, the latest wins and the listing is complete
 	final := Named(n1)
